@@ -160,7 +160,7 @@ package roundrobin
 //@   loop 1 invariant forall i int :: 0 <= i && i <= rangeindex ==> out[i] == r.servers[i].url
 
 //@ func (*RoundRobin).NextServer
-//@   props C01 C02
+//@   props C01 C02 C11
 //@   modifies r.index, r.currentWeight
 //@   ensures empty_pool_fails: len(r.servers) == 0 ==> result1 != nil && result0 == nil
 //@   ensures {C01,C02,C09} fresh_copy: result1 == nil ==> result0 != nil && fresh(result0) && member(r, result0)
